@@ -72,7 +72,7 @@ class Tr:
         if isinstance(e, ast.Name):
             return e.id
         if isinstance(e, ast.Attribute) and isinstance(e.value, ast.Name) and e.value.id == 'self' \
-                and e.attr in ('n_iter', 'damping_factor'):
+                and e.attr in ('n_iter', 'damping_factor', 'labels_', 'labels_row_', 'labels_col_'):
             return 'self.' + e.attr
         return None
 
@@ -95,6 +95,16 @@ class Tr:
             return '(XVar %s)' % _cstr(nm)
         if isinstance(e, ast.Constant):
             return _lit(e.value)
+        if isinstance(e, ast.BinOp) and isinstance(e.op, ast.Add) and isinstance(e.right, ast.Constant) and e.right.value == 1 \
+                and not isinstance(e.right.value, bool) and isinstance(e.left, ast.Call) and isinstance(e.left.func, ast.Name) \
+                and e.left.func.id == 'max' and not e.left.keywords:
+            a = e.left.args
+            if len(a) == 1:
+                return '(XNLabels %s)' % self.expr(a[0])
+            if len(a) == 2 and all(isinstance(x, ast.Call) and isinstance(x.func, ast.Name) and x.func.id == 'max'
+                                   and len(x.args) == 1 and not x.keywords for x in a):
+                return '(XNLabels2 %s %s)' % (self.expr(a[0].args[0]), self.expr(a[1].args[0]))
+            raise TranslateError('unsupported max(): ' + ast.unparse(e))
         if isinstance(e, ast.BinOp) and type(e.op) in BINOPS:
             return '(XBin %s %s %s)' % (BINOPS[type(e.op)], self.expr(e.left), self.expr(e.right))
         if isinstance(e, ast.Compare) and len(e.ops) == 1 and isinstance(e.ops[0], ast.GtE) \
@@ -119,6 +129,11 @@ class Tr:
             if isinstance(f, ast.Name) and f.id == 'get_membership' and 'get_membership' in self.want and len(e.args) == 1 \
                     and not e.keywords:
                 return '(XMembership %s)' % self.expr(e.args[0])
+            if isinstance(f, ast.Name) and f.id == 'get_membership' and 'get_membership' in self.want and len(e.args) == 1 \
+                    and len(e.keywords) == 1 and e.keywords[0].arg == 'n_labels':
+                return '(XMembershipN %s %s)' % (self.expr(e.args[0]), self.expr(e.keywords[0].value))
+            if self.is_call(e, 'sparse', 'csr_matrix', 1):
+                return '(XCopy %s)' % self.expr(e.args[0])
             m = self.method(e, 'astype', 1)
             if m and isinstance(m[1][0], ast.Name) and m[1][0].id == 'float':
                 return '(XCopy %s)' % self.expr(m[0])
@@ -374,3 +389,106 @@ def gen_npmodularity():
 
 
 FILES['NpModularity.v'] = gen_npmodularity
+
+
+# ---------------------------------------------------------------------------------------------------------------------
+# clustering/base.py: BaseClustering._secondary_outputs (C05)
+# ---------------------------------------------------------------------------------------------------------------------
+BREL = 'sknetwork/clustering/base.py'
+BASE_IMPORTS = {'normalize': 'sknetwork.linalg.normalizer', 'get_membership': 'sknetwork.utils.membership'}
+
+
+def _if_attr(s, attr, negate=False):
+    """s is `if self.attr:` (or `if not self.attr:`) -> (body, orelse)"""
+    if not isinstance(s, ast.If):
+        return None
+    t = s.test
+    if negate:
+        if not (isinstance(t, ast.UnaryOp) and isinstance(t.op, ast.Not)):
+            return None
+        t = t.operand
+    if isinstance(t, ast.Attribute) and isinstance(t.value, ast.Name) and t.value.id == 'self' and t.attr == attr:
+        return s.body, s.orelse
+    return None
+
+
+def _self_assign(s, attr):
+    if isinstance(s, ast.Assign) and len(s.targets) == 1 and ast.unparse(s.targets[0]) == 'self.' + attr:
+        return s.value
+    return None
+
+
+def gen_npsecondary():
+    tree = ast.parse(_src(BREL))
+    cls = [n for n in tree.body if isinstance(n, ast.ClassDef) and n.name == 'BaseClustering']
+    if len(cls) != 1:
+        raise TranslateError('BaseClustering not found')
+    fns = [m for m in cls[0].body if isinstance(m, ast.FunctionDef) and m.name == '_secondary_outputs']
+    if len(fns) != 1:
+        raise TranslateError('_secondary_outputs not found')
+    body = Tr.strip(fns[0].body)
+    # if self.return_probs or self.return_aggregate: <block>; return self
+    if len(body) != 2 or ast.unparse(body[1]) != 'return self' or not isinstance(body[0], ast.If) \
+            or ast.unparse(body[0].test) != 'self.return_probs or self.return_aggregate' or body[0].orelse:
+        raise TranslateError('unexpected shape of _secondary_outputs')
+    blk = Tr.strip(body[0].body)
+    if len(blk) != 2 or ast.unparse(blk[0]) != 'input_matrix = input_matrix.astype(float)':
+        raise TranslateError('unexpected start of _secondary_outputs')
+    br = _if_attr(blk[1], 'bipartite', negate=True)
+    if br is None:
+        raise TranslateError('no `if not self.bipartite` in _secondary_outputs')
+    sq, bip = Tr.strip(br[0]), Tr.strip(br[1])
+    terms = {}
+
+    def tr():
+        return Tr(tree, BASE_IMPORTS)
+
+    def outputs(stmts, prefix_stmts, wanted):
+        """stmts: [..., if self.return_probs: <self.X = e>*, if self.return_aggregate: <assignments; self.aggregate_ = e>]"""
+        for s in stmts:
+            for flag in ('return_probs', 'return_aggregate'):
+                b = _if_attr(s, flag)
+                if b is None:
+                    continue
+                if b[1]:
+                    raise TranslateError('unexpected else of `if self.%s`' % flag)
+                inner = Tr.strip(b[0])
+                for k, q in enumerate(inner):
+                    for attr in wanted:
+                        v = _self_assign(q, attr)
+                        if v is None:
+                            continue
+                        if isinstance(v, ast.Attribute) and isinstance(v.value, ast.Name) and v.value.id == 'self':
+                            continue            # self.probs_ = self.probs_row_: an alias, not a computation
+                        t = tr()
+                        pre = prefix_stmts + [x for x in inner[:k] if _self_assign(x, '') is None and not any(
+                            _self_assign(x, a_) is not None for a_ in wanted)]
+                        if attr in terms:
+                            raise TranslateError('self.%s is assigned twice' % attr)
+                        terms[attr] = t.block(pre, lambda v=v, t=t: t.expr(v))
+    # square case
+    pre_sq = [s for s in sq if _if_attr(s, 'return_probs') is None and _if_attr(s, 'return_aggregate') is None]
+    outputs(sq, pre_sq, ['probs_', 'aggregate_'])
+    sq_terms = dict(terms)
+    terms.clear()
+    # bipartite case: `if self.labels_col_ is None: ... else: <prefix>` then the two flag blocks
+    if not bip or not isinstance(bip[0], ast.If) or ast.unparse(bip[0].test) != 'self.labels_col_ is None':
+        raise TranslateError('unexpected start of the bipartite branch')
+    pre_bip = Tr.strip(bip[0].orelse)
+    outputs(bip[1:], pre_bip, ['probs_row_', 'probs_col_', 'aggregate_'])
+    out = ['(* generated by harness/translators/npvec.py from %s; do not edit *)' % BREL,
+           'From SKN Require Import Base.Util Model.NpExpr Model.NpVec.',
+           'From Coq Require Import String.',
+           'Local Open Scope string_scope.', '']
+    for name, key, src in (('src_secondary_probs', 'probs_', sq_terms), ('src_secondary_aggregate', 'aggregate_', sq_terms),
+                           ('src_secondary_probs_row', 'probs_row_', terms), ('src_secondary_probs_col', 'probs_col_', terms),
+                           ('src_secondary_aggregate_bip', 'aggregate_', terms)):
+        if key not in src:
+            raise TranslateError('self.%s is not computed where expected' % key)
+        out.append('(* %s: _secondary_outputs, value assigned to self.%s (%s case) *)' % (BREL, key, 'square' if src is sq_terms else 'bipartite'))
+        out.append('Definition %s : vexpr :=\n  %s.' % (name, src[key]))
+        out.append('')
+    return '\n'.join(out)
+
+
+FILES['NpSecondary.v'] = gen_npsecondary
